@@ -28,6 +28,14 @@ import ModbusVerif.Props.C20Ext
   constants of package modbus; the numbers are what both halves of `main` use, the names were read
   off the source by hand.
 
+  ARMS (accessor `arm k` = `iT (iE^k cliSwitch)`, source order; `armDefault` = `iE^25 cliSwitch`):
+     0 readBools · 1 readUint16, readInt16 · 2 readUint32, readInt32 · 3 readFloat32 ·
+     4 readUint64, readInt64 · 5 readFloat64 · 6 readBytes · 7 writeCoil · 8 writeUint16 ·
+     9 writeInt16 · 10 writeUint32 · 11 writeInt32 · 12 writeFloat32 · 13 writeUint64 · 14 writeInt64 ·
+     15 writeFloat64 · 16 writeBytes · 17 sleep · 18 setUnitId · 19 repeat · 20 date · 21 scanBools ·
+     22 scanRegisters · 23 scanUnitId · 24 ping   (`armIndex`: op code ↦ arm; `C20R_call_sites`:
+     every call site of every arm).
+
   RESULTS
   1. `C20R_located`: where the loop is, its frame, the switch table (25 cases + default).
      `C20R_dispatch`: with `o.op = v` the switch runs exactly the arm of `v`; every value outside
@@ -46,12 +54,16 @@ import ModbusVerif.Props.C20Ext
      (format literal, then the error) and FALL THROUGH: the loop goes on with the next operation, no
      exit; the only `os.Exit` of the run loop is `os.Exit(100)` in `default` (`C20R_exit_sites`), and
      after the last round `main` returns (exit status 0) (`C20R_loop_end`).
-     `C20R_round`: the whole round (`o = &runList[opIdx]`, switch, `opIdx++`).
+     `C20R_default`: an op code without a case prints `unknown operation` and stops at `os.Exit(100)`.
+     `C20R_round`: the whole round (`o = &runList[opIdx]`, switch, `opIdx++`); `C20R_loop_step`.
+     `C20R_unit`: `SetUnitId` gets the id of `nextUnit`. `C20R_example`: a closed run of the whole
+     generated loop, executed by the kernel.
   3. `C20R_printed_addresses`: the typed address expressions of every row `Printf`, extracted by
      accessors, evaluated for all `addr`, `idx`: `addr + idx·k` in uint16 arithmetic, k = 1 / 2 / 4,
      `addr + idx/2` for the 16-byte lines of `bytes` (= `addr + 8·line` at the line starts) — the
      model's address column (`C20R_model_lines`, `C20X_printed_address`). `C20R_rows`: the rows of a
-     successful read, one per element, in order. `C20R_signed`: `int16(v)`, `int32(v)`, `int64(v)`
+     successful read, one per element, in order; `C20R_row_content`: (address, address, value
+     [, value as `%v` shows it]) per type. `C20R_signed`: `int16(v)`, `int32(v)`, `int64(v)`
      evaluate to `BitVec.toInt`. `C20R_formats`: the format literals (hex width 4 / 8 / 16).
      Sensitivity: `C20R_sensitive_stride` (`* 2` in the int64 branch), `C20R_sensitive_count`.
   4. `C20R_fresh_record`: static (the leaves a round reads before assigning their base variable:
@@ -60,6 +72,19 @@ import ModbusVerif.Props.C20Ext
      variables a round assigns — give the same round).
 
   No disagreement between the Go logic and the model was found for any input.
+
+  LIMITS (inherent in the rendering, nothing is guessed):
+  * `fmt.Printf` is a call with a format LITERAL and evaluated arguments: which literal and which
+    values, in which order, is proved; the rendering of `%04x`, `%-5v`, `%f` into characters is Go's
+    `fmt` and is not modelled (the model's strings are compared with the binary by the C20 harness).
+  * `res[idx]` is ONE text-keyed leaf: the rows show that the value printed next to address
+    `addr + idx·k` is the expression `res[idx]` (resp. its conversion); that this is the `idx`-th
+    element of what the call returned is the meaning of the Go index expression, not evaluated.
+  * `o.field` are leaves keyed by text: that they are the fields of `runList[opIdx]` rests on the
+    assignment `o = &runList[opIdx]` at the head of the round (`C20R_fresh_record`, static part).
+  * float values, byte slices, `time.Duration` arguments are opaque symbols / integers passed through.
+  * `performBoolScan`, `performRegisterScan`, `performUnitIdScan`, `performPing`, `decodeString` are
+    other functions of the command (not rendered): only their call with its arguments is.
 -/
 set_option linter.unusedSimpArgs false
 set_option linter.unusedVariables false
@@ -494,6 +519,38 @@ theorem qplus1 (q : U16) : ((q + 1).toNat : Int) = ((q.toNat : Int) + 1) % 65536
   rw [this]
   omega
 
+theorem calls_read (k : Nat) (hk : k < 7) (flag : Bool) (g : GoOp) (env : Env) (e : String) (n : Int)
+    (x : GoEval.Val) :
+    clientCalls (readNew k flag g env e n x) =
+      [(readCallee k flag, readArgs k flag g.addr.toNat g.quantity.toNat)] := by
+  have hrows : clientCalls (if e = "nil" then rows (rowCalls k env g.addr.toNat g.op n x) 0 n.toNat
+      else readFailCalls k env e) = [] := by
+    split
+    · exact clientCalls_rows _ (clientCalls_rowCalls k hk env _ _ n x) _ _
+    · rfl
+  unfold readNew
+  rw [clientCalls_append, hrows, List.append_nil]
+  have : k = 0 ∨ k = 1 ∨ k = 2 ∨ k = 3 ∨ k = 4 ∨ k = 5 ∨ k = 6 := by omega
+  rcases this with rfl | rfl | rfl | rfl | rfl | rfl | rfl <;> cases flag <;>
+    simp only [readMarker, readCallee, Bool.false_eq_true, ↓reduceIte] <;>
+    rw [clientCalls_cons_other _ _ _ (by decide +kernel), clientCalls_cons_client _ _ _ (by decide +kernel)] <;>
+    rfl
+
+theorem calls_write (k : Nat) (h7 : 7 ≤ k) (h16 : k ≤ 16) (g : GoOp) (env : Env) (e : String)
+    (v : GoEval.Val) :
+    clientCalls (writeNew k g env e v) = [(writeCallee k, [.int g.addr.toNat, v])] := by
+  have hwp : clientCalls (writePrintCalls k env g.addr.toNat v e) = [] := by
+    unfold writePrintCalls
+    split <;> rfl
+  unfold writeNew
+  have : k = 7 ∨ k = 8 ∨ k = 9 ∨ k = 10 ∨ k = 11 ∨ k = 12 ∨ k = 13 ∨ k = 14 ∨ k = 15 ∨ k = 16 := by omega
+  rcases this with rfl | rfl | rfl | rfl | rfl | rfl | rfl | rfl | rfl | rfl <;>
+    simp only [writeCallee] <;>
+    rw [clientCalls_cons_client _ _ _ (by decide +kernel), hwp]
+
+theorem regTypeArg_int (h : Bool) : ((regTypeArg h : Nat) : Int) = if h = true then 0 else 1 := by
+  cases h <;> rfl
+
 /-- CALLS = MODEL. The client calls of the arm of a record are exactly the model's `execute` of the
     operation it stands for, as (method, evaluated arguments), plus `client.SetUnitId(id)` for
     `setUnitId` (`nextUnit`): ONE call per read / write operation, whatever the call returns —
@@ -507,28 +564,644 @@ theorem C20R_calls (g : GoOp) (op : Operation) (hd : g.denotes = some op) (env :
   obtain ⟨op', addr, isCoil, isHoldingReg, quantity, coil, u16, u32, f32, u64, f64, bytes, duration,
     unitId⟩ := g
   simp only at hv1 hv2 hv3
-  have hrows : ∀ k, k < 7 → ∀ a opv,
-      clientCalls (if e = "nil" then rows (rowCalls k env a opv n x) 0 n.toNat else readFailCalls k env e) = [] := by
-    intro k hk a opv
-    split
-    · exact clientCalls_rows _ (clientCalls_rowCalls k hk env a opv n x) _ _
-    · rfl
-  have hwp : ∀ k a v, clientCalls (writePrintCalls k env a v e) = [] := by
-    intro k a v
-    unfold writePrintCalls
-    split <;> rfl
   rcases valid_cases op' hv1 hv2 hv3 with h | h | h | h | h | h | h | h | h | h | h | h | h | h | h |
     h | h | h | h | h | h | h | h | h | h | h | h | h <;> subst h <;>
     simp only [GoOp.denotes, Option.some.injEq] at hd <;> subst hd
-  all_goals simp only [armNew, readNew, writeNew, clientCalls_append, hrows 0 (by omega), hrows 1 (by omega), hrows 2 (by omega),
-    hrows 3 (by omega), hrows 4 (by omega), hrows 5 (by omega), hrows 6 (by omega), List.append_nil,
-    execute, List.map, unitCall, callOf]
-  all_goals first
-    | rfl
-    | (cases isCoil <;> cases isHoldingReg <;>
-        simp (disch := decide) only [readMarker, readCallee, readArgs, clientCalls_cons_client,
-          clientCalls_cons_other, clientCalls_nil, regTypeArg, qplus1, ↓reduceIte, Bool.false_eq_true,
-          List.map, callOf, List.nil_append, List.append_nil, Int.natCast_zero, Int.natCast_one,
-          writeCallee, hwp] <;> rfl)
+  -- reads
+  · simp only [armNew, calls_read 0 (by omega), readCallee, readArgs, execute, unitCall, List.append_nil]
+    cases isCoil <;> simp only [Bool.false_eq_true, ↓reduceIte, List.map, callOf, qplus1]
+  iterate 9
+    simp only [armNew, calls_read 1 (by omega), calls_read 2 (by omega), calls_read 3 (by omega),
+      calls_read 4 (by omega), calls_read 5 (by omega), calls_read 6 (by omega), readCallee, readArgs, execute, unitCall, List.append_nil,
+      List.map, callOf, qplus1, regTypeArg_int]
+  -- writes
+  iterate 10
+    simp only [armNew, calls_write 7 (by omega) (by omega), calls_write 8 (by omega) (by omega),
+      calls_write 9 (by omega) (by omega), calls_write 10 (by omega) (by omega),
+      calls_write 11 (by omega) (by omega), calls_write 12 (by omega) (by omega),
+      calls_write 13 (by omega) (by omega), calls_write 14 (by omega) (by omega),
+      calls_write 15 (by omega) (by omega), calls_write 16 (by omega) (by omega), writeCallee, execute, unitCall, List.append_nil,
+      List.map, callOf]
+  -- setUnitId
+  · simp only [armNew, execute, unitCall, List.map, List.nil_append]
+    exact clientCalls_cons_client _ _ _ (by decide +kernel)
+  -- sleep, repeat, date, scans, ping
+  · simp only [armNew, execute, unitCall, List.map, List.nil_append]
+    exact clientCalls_cons_other _ _ _ (by decide +kernel)
+  · rfl
+  · rfl
+  · simp only [armNew, execute, unitCall, List.map, List.nil_append]
+    exact clientCalls_cons_other _ _ _ (by decide +kernel)
+  · simp only [armNew, execute, unitCall, List.map, List.nil_append]
+    exact clientCalls_cons_other _ _ _ (by decide +kernel)
+  · simp only [armNew, execute, unitCall, List.map, List.nil_append]
+    exact clientCalls_cons_other _ _ _ (by decide +kernel)
+  · simp only [armNew, execute, unitCall, List.map, List.nil_append]
+    exact clientCalls_cons_other _ _ _ (by decide +kernel)
+
+/-- the read quantity is `o.quantity + 1` in uint16 arithmetic: `addr+65535` asks for 0 items (the
+    model's `C20_count_wrap`; the library then refuses the call, C01) -/
+theorem C20R_count_wrap (g : GoOp) (h1 : 1 ≤ g.op) (h10 : g.op ≤ 10) (env : Env) (e : String) (n : Int)
+    (x : GoEval.Val) :
+    ∃ callee rest, clientCalls (armNew g env e n x) =
+        [(callee, .int g.addr.toNat :: .int ((g.quantity.toNat + 1) % 65536) :: rest)] ∧
+      (g.quantity = 0xFFFF → ((g.quantity.toNat : Int) + 1) % 65536 = 0) := by
+  obtain ⟨op', addr, isCoil, isHoldingReg, quantity, coil, u16, u32, f32, u64, f64, bytes, duration,
+    unitId⟩ := g
+  simp only at h1 h10
+  have hq : quantity = 0xFFFF → ((quantity.toNat : Int) + 1) % 65536 = 0 := by
+    intro h; subst h; rfl
+  have : op' = 1 ∨ op' = 2 ∨ op' = 3 ∨ op' = 4 ∨ op' = 5 ∨ op' = 6 ∨ op' = 7 ∨ op' = 8 ∨ op' = 9 ∨ op' = 10 := by
+    omega
+  rcases this with rfl | rfl | rfl | rfl | rfl | rfl | rfl | rfl | rfl | rfl
+  · exact ⟨_, _, by simp only [armNew, calls_read 0 (by omega), readArgs]; rfl, hq⟩
+  all_goals
+    exact ⟨_, _, by simp only [armNew, calls_read 1 (by omega), calls_read 2 (by omega), calls_read 3 (by omega),
+      calls_read 4 (by omega), calls_read 5 (by omega), calls_read 6 (by omega), readArgs]; rfl, hq⟩
+
+/-! ### errors, exits -/
+
+abbrev fmtFailCoil : String := "\"failed to write %v at coil address 0x%04x: %v\\n\""
+abbrev fmtFailReg : String := "\"failed to write %v at register address 0x%04x: %v\\n\""
+abbrev fmtFailAt : String := "\"failed to write %v at address 0x%04x: %v\\n\""
+abbrev fmtFailAtF : String := "\"failed to write %f at address 0x%04x: %v\\n\""
+
+/-- ERRORS. A non-nil error `e` of the client call: the arm prints ONE message — the failure format
+    with the error (reads), with value, address and error (writes) — nothing else, and falls through
+    (`C20R_arm`: `how = fell` for every `e`; `C20R_round`: the loop goes on with `opIdx + 1`). The
+    process does not exit and the exit status is not changed. -/
+theorem C20R_errors (g : GoOp) (env : Env) (e : String) (he : e ≠ "nil") (n : Int) (x v : GoEval.Val) :
+    (∀ k flag, readNew k flag g env e n x =
+      [(readMarker k, []), (readCallee k flag, readArgs k flag g.addr.toNat g.quantity.toNat),
+       pf env (armFail (arm k)) [.sym e]]) ∧
+    (∀ k, writeNew k g env e v =
+      [(writeCallee k, [.int g.addr.toNat, v]),
+       pf env (wFail (arm k)) [writeShown k v, .int g.addr.toNat, .sym e]]) ∧
+    fmtOf (armFail (arm 0)) = fmtFailBools ∧
+    (List.range 7).tail.map (fun k => fmtOf (armFail (arm k))) = List.replicate 6 fmtFailRegs ∧
+    ((List.range 17).drop 7).map (fun k => fmtOf (wFail (arm k))) =
+      [fmtFailCoil, fmtFailReg, fmtFailReg, fmtFailAt, fmtFailAt, fmtFailAtF, fmtFailAt, fmtFailAt,
+       fmtFailAtF, fmtFailAt] := by
+  refine ⟨fun k flag => ?_, fun k => ?_, by rfl, by decide +kernel, by decide +kernel⟩
+  · simp only [readNew, if_neg he, readFailCalls, List.cons_append, List.nil_append]
+  · simp only [writeNew, writePrintCalls, if_neg he]
+
+/-- literal value of an argument -/
+def litVal : GExpr → Option Int
+  | .lit v _ => some v
+  | _ => none
+/-- the `os.Exit` call sites of a statement with their (literal) arguments -/
+def exitSites (s : GStmt) : List (List (Option Int)) :=
+  ((bindCalls s).filter (fun c => c.2.1 == "os.Exit")).map (fun c => c.2.2.map litVal)
+
+/-- the ONLY `os.Exit` of the run loop is `os.Exit(100)` in the `default` case (an op code without a
+    case: cannot come out of the argument loop, which sets `o.op` from the constants with a case) -/
+theorem C20R_exit_sites : exitSites cliRunPart = [[some 100]] ∧ exitSites armDefault = [[some 100]] := by
+  constructor <;> decide +kernel
+
+/-- `default`: message, then the run stops at `os.Exit(100)` (the oracle has no answer: the process
+    ends); no client call -/
+theorem C20R_default (v : Nat) (hv : v = 0 ∨ v = 12 ∨ 30 ≤ v) (rv : GoEval.Val) (e : String) (env : Env)
+    (cs : Calls) (ov : GoEval.Val) (ho : Env.read? env "o" = some ov) (F : Nat) (hF : 3 ≤ F) :
+    execFrom (cliOracle rv e) F (selectArm cliTable armDefault v) env cs =
+      ⟨env, .stoppedAt "os.Exit" [.int 100], cs ++ [pf env (sA armDefault) [ov]]⟩ ∧
+    fmtOf (sA armDefault) = "\"unknown operation %v\\n\"" := by
+  rw [select_default _ _ (by omega)]
+  exact ⟨default_run rv e env cs ov F hF ho, by rfl⟩
+
+/-- after the last operation the loop is left and `main` returns (`run_is_last`: nothing but
+    `return` follows the loop): exit status 0, whatever errors the calls returned -/
+theorem C20R_loop_end (o : Oracle) (env : Env) (cs : Calls) (j len : Int)
+    (hj : Env.read? env "opIdx" = some (.int j)) (hl : Env.read? env "len(runList)" = some (.int len))
+    (h : ¬ j < len) (F : Nat) :
+    execFrom o (F + 3) (.loop cliHead) env cs = ⟨env, .fell, cs⟩ ∧ afterInit "opIdx" gs_cli_main = .ret := by
+  refine ⟨?_, run_is_last⟩
+  rw [execFrom_loop, head_run o env cs j len hj hl F, if_neg h, loopK_broke]
+
+/-- the loop goes on: a round that fell through is followed by the loop head again (and a round
+    that stopped at `os.Exit` ends the run) -/
+theorem C20R_loop_step (o : Oracle) (env : Env) (cs : Calls) (j len : Int)
+    (hj : Env.read? env "opIdx" = some (.int j)) (hl : Env.read? env "len(runList)" = some (.int len))
+    (h : j < len) (F : Nat) (r : Res) (hr : execFrom o (F + 1) cliRound env cs = r) :
+    execFrom o (F + 3) (.loop cliHead) env cs = loopK o (F + 2) cliHead r ∧
+    (∀ env' cs', loopK o (F + 2) cliHead ⟨env', .fell, cs'⟩ = execFrom o (F + 2) (.loop cliHead) env' cs') ∧
+    (∀ env' cs' f a, loopK o (F + 2) cliHead ⟨env', .stoppedAt f a, cs'⟩ = ⟨env', .stoppedAt f a, cs'⟩) := by
+  refine ⟨?_, fun _ _ => loopK_fell .., fun _ _ _ _ => loopK_stopped ..⟩
+  rw [execFrom_loop, head_run o env cs j len hj hl F, if_pos h, hr]
+
+/-- every call site of every arm (all paths): no method of `client` other than the ones
+    `clientCalls` looks for is called anywhere in the run loop -/
+theorem C20R_call_sites :
+    callees (arm 0) = ["var []bool", "client.ReadCoils", "client.ReadDiscreteInputs", "fmt.Printf", "fmt.Printf"] ∧
+    callees (arm 1) = ["var []uint16", "client.ReadRegisters", "client.ReadRegisters", "fmt.Printf", "fmt.Printf", "fmt.Printf"] ∧
+    callees (arm 2) = ["var []uint32", "client.ReadUint32s", "client.ReadUint32s", "fmt.Printf", "fmt.Printf", "fmt.Printf"] ∧
+    callees (arm 3) = ["var []float32", "client.ReadFloat32s", "client.ReadFloat32s", "fmt.Printf", "fmt.Printf"] ∧
+    callees (arm 4) = ["var []uint64", "client.ReadUint64s", "client.ReadUint64s", "fmt.Printf", "fmt.Printf", "fmt.Printf"] ∧
+    callees (arm 5) = ["var []float64", "client.ReadFloat64s", "client.ReadFloat64s", "fmt.Printf", "fmt.Printf"] ∧
+    callees (arm 6) = ["var []byte", "client.ReadBytes", "client.ReadBytes", "fmt.Printf", "fmt.Printf", "fmt.Printf", "fmt.Printf", "fmt.Printf"] ∧
+    callees (arm 7) = ["client.WriteCoil", "fmt.Printf", "fmt.Printf"] ∧
+    callees (arm 8) = ["client.WriteRegister", "fmt.Printf", "fmt.Printf"] ∧
+    callees (arm 9) = ["client.WriteRegister", "fmt.Printf", "fmt.Printf"] ∧
+    callees (arm 10) = ["client.WriteUint32", "fmt.Printf", "fmt.Printf"] ∧
+    callees (arm 11) = ["client.WriteUint32", "fmt.Printf", "fmt.Printf"] ∧
+    callees (arm 12) = ["client.WriteFloat32", "fmt.Printf", "fmt.Printf"] ∧
+    callees (arm 13) = ["client.WriteUint64", "fmt.Printf", "fmt.Printf"] ∧
+    callees (arm 14) = ["client.WriteUint64", "fmt.Printf", "fmt.Printf"] ∧
+    callees (arm 15) = ["client.WriteFloat64", "fmt.Printf", "fmt.Printf"] ∧
+    callees (arm 16) = ["client.WriteBytes", "fmt.Printf", "fmt.Printf"] ∧
+    callees (arm 17) = ["time.Sleep"] ∧ callees (arm 18) = ["client.SetUnitId"] ∧ callees (arm 19) = [] ∧
+    callees (arm 20) = ["fmt.Printf"] ∧ callees (arm 21) = ["performBoolScan"] ∧
+    callees (arm 22) = ["performRegisterScan"] ∧ callees (arm 23) = ["performUnitIdScan"] ∧
+    callees (arm 24) = ["performPing"] ∧ callees armDefault = ["fmt.Printf", "os.Exit"] := callees_arms
+
+/-- what the unmodelled operations do (`Operation.other`): no call on `client` in `main`;
+    the scans and `ping` hand `client` to functions that issue their own requests -/
+theorem C20R_unmodelled (g : GoOp) (env : Env) (e : String) (n : Int) (x : GoEval.Val) :
+    armNew { g with op := 23 } env e n x = [("time.Sleep", [.int g.duration])] ∧
+    armNew { g with op := 24 } env e n x = [] ∧
+    armNew { g with op := 25 } env e n x = [pf env (arm 20) [Env.read env "time.Now().Format(time.RFC3339)"]] ∧
+    armNew { g with op := 26 } env e n x = [("performBoolScan", [.sym "client", .ofBool g.isCoil])] ∧
+    armNew { g with op := 27 } env e n x = [("performRegisterScan", [.sym "client", .ofBool g.isHoldingReg])] ∧
+    armNew { g with op := 28 } env e n x = [("performUnitIdScan", [.sym "client"])] ∧
+    armNew { g with op := 29 } env e n x =
+      [("performPing", [.sym "client", .int g.quantity.toNat, .int g.duration])] :=
+  ⟨rfl, rfl, rfl, rfl, rfl, rfl, rfl⟩
+
+/-! ### the round; only the current record matters -/
+
+theorem read_congr {env1 env2 : Env} (H : ∀ t, t ∉ roundVars → Env.read? env1 t = Env.read? env2 t)
+    (t : String) (h : t ∉ roundVars) : Env.read env1 t = Env.read env2 t := by
+  rw [read_def, read_def, H t h]
+
+theorem pf_congr {env1 env2 : Env} (H : ∀ t, t ∉ roundVars → Env.read? env1 t = Env.read? env2 t)
+    (s : GStmt) (args : List GoEval.Val) (h : fmtOf s ∉ roundVars) : pf env1 s args = pf env2 s args := by
+  unfold pf; rw [read_congr H _ h]
+
+theorem rowCalls_congr {env1 env2 : Env} (H : ∀ t, t ∉ roundVars → Env.read? env1 t = Env.read? env2 t)
+    (k : Nat) (hk : k < 7) (a opv n : Int) (x : GoEval.Val) :
+    rowCalls k env1 a opv n x = rowCalls k env2 a opv n x := by
+  funext i
+  have : k = 0 ∨ k = 1 ∨ k = 2 ∨ k = 3 ∨ k = 4 ∨ k = 5 ∨ k = 6 := by omega
+  rcases this with rfl | rfl | rfl | rfl | rfl | rfl | rfl <;> simp only [rowCalls]
+  · rw [pf_congr H (rowStmt 0) _ (by decide +kernel)]
+  · rw [pf_congr H (iT (rowStmt 1)) _ (by decide +kernel), pf_congr H (iE (rowStmt 1)) _ (by decide +kernel)]
+  · rw [pf_congr H (iT (rowStmt 2)) _ (by decide +kernel), pf_congr H (iE (rowStmt 2)) _ (by decide +kernel)]
+  · rw [pf_congr H (rowStmt 3) _ (by decide +kernel)]
+  · rw [pf_congr H (iT (rowStmt 4)) _ (by decide +kernel), pf_congr H (iE (rowStmt 4)) _ (by decide +kernel)]
+  · rw [pf_congr H (rowStmt 5) _ (by decide +kernel)]
+  · rw [pf_congr H bytesHead _ (by decide +kernel), pf_congr H bytesByte _ (by decide +kernel),
+      pf_congr H bytesTail _ (by decide +kernel), pf_congr H bytesGap _ (by decide +kernel),
+      read_congr H decodeLeaf (by decide +kernel)]
+
+theorem readNew_congr {env1 env2 : Env} (H : ∀ t, t ∉ roundVars → Env.read? env1 t = Env.read? env2 t)
+    (k : Nat) (hk : k < 7) (flag : Bool) (g : GoOp) (e : String) (n : Int) (x : GoEval.Val) :
+    readNew k flag g env1 e n x = readNew k flag g env2 e n x := by
+  unfold readNew readFailCalls
+  rw [rowCalls_congr H k hk]
+  have : k = 0 ∨ k = 1 ∨ k = 2 ∨ k = 3 ∨ k = 4 ∨ k = 5 ∨ k = 6 := by omega
+  rcases this with rfl | rfl | rfl | rfl | rfl | rfl | rfl <;>
+    rw [pf_congr H (armFail (arm _)) _ (by decide +kernel)]
+
+theorem writeNew_congr {env1 env2 : Env} (H : ∀ t, t ∉ roundVars → Env.read? env1 t = Env.read? env2 t)
+    (k : Nat) (h7 : 7 ≤ k) (h16 : k ≤ 16) (g : GoOp) (e : String) (v : GoEval.Val) :
+    writeNew k g env1 e v = writeNew k g env2 e v := by
+  unfold writeNew writePrintCalls
+  have : k = 7 ∨ k = 8 ∨ k = 9 ∨ k = 10 ∨ k = 11 ∨ k = 12 ∨ k = 13 ∨ k = 14 ∨ k = 15 ∨ k = 16 := by omega
+  rcases this with rfl | rfl | rfl | rfl | rfl | rfl | rfl | rfl | rfl | rfl <;>
+    rw [pf_congr H (wOk (arm _)) _ (by decide +kernel), pf_congr H (wFail (arm _)) _ (by decide +kernel)] <;>
+    simp only [writeOkArgs]
+  rw [read_congr H "len(o.bytes)" (by decide)]
+
+/-- what an arm does depends on the environment only through leaves no round assigns -/
+theorem armNew_congr {env1 env2 : Env} (H : ∀ t, t ∉ roundVars → Env.read? env1 t = Env.read? env2 t)
+    (g : GoOp) (e : String) (n : Int) (x : GoEval.Val) : armNew g env1 e n x = armNew g env2 e n x := by
+  obtain ⟨op', addr, isCoil, isHoldingReg, quantity, coil, u16, u32, f32, u64, f64, bytes, duration,
+    unitId⟩ := g
+  by_cases hv : 1 ≤ op' ∧ op' ≤ 29 ∧ op' ≠ 12
+  · rcases valid_cases op' hv.1 hv.2.1 hv.2.2 with h | h | h | h | h | h | h | h | h | h | h | h | h | h | h |
+      h | h | h | h | h | h | h | h | h | h | h | h | h <;> subst h <;> simp only [armNew]
+    iterate 10 exact readNew_congr H _ (by omega) _ _ _ _ _
+    iterate 10 exact writeNew_congr H _ (by omega) (by omega) _ _ _
+    · rw [pf_congr H (arm 20) _ (by decide +kernel), read_congr H _ (by decide)]
+  · have : op' = 0 ∨ op' = 12 ∨ 30 ≤ op' := by omega
+    rcases this with rfl | rfl | h30
+    · rfl
+    · rfl
+    · obtain ⟨w, rfl⟩ : ∃ w, op' = w + 30 := ⟨op' - 30, by omega⟩
+      rfl
+
+theorem Bound.congr {env1 env2 : Env} (H : ∀ t, t ∉ roundVars → Env.read? env1 t = Env.read? env2 t)
+    {g : GoOp} (h : Bound env1 g) : Bound env2 g where
+  op := by rw [← H _ (by decide)]; exact h.op
+  addr := by rw [← H _ (by decide)]; exact h.addr
+  isCoil := by rw [← H _ (by decide)]; exact h.isCoil
+  isHoldingReg := by rw [← H _ (by decide)]; exact h.isHoldingReg
+  quantity := by rw [← H _ (by decide)]; exact h.quantity
+  coil := by rw [← H _ (by decide)]; exact h.coil
+  u16 := by rw [← H _ (by decide)]; exact h.u16
+  u32 := by rw [← H _ (by decide)]; exact h.u32
+  f32 := by rw [← H _ (by decide)]; exact h.f32
+  u64 := by rw [← H _ (by decide)]; exact h.u64
+  f64 := by rw [← H _ (by decide)]; exact h.f64
+  bytes := by rw [← H _ (by decide)]; exact h.bytes
+  bytesLen := by rw [← H _ (by decide)]; exact h.bytesLen
+  duration := by rw [← H _ (by decide)]; exact h.duration
+  unitId := by rw [← H _ (by decide)]; exact h.unitId
+  nil := by rw [← H _ (by decide)]; exact h.nil
+  client := by rw [← H _ (by decide)]; exact h.client
+
+/-- THE ROUND. `o = &runList[opIdx]`, the switch, `opIdx++`, for every record with a case: the round
+    falls through having appended `armNew` (whatever the client call returned: the loop goes on
+    after an error), `opIdx` is `j + 1` (`repeat`: 0), nothing but the round's own variables
+    changes. -/
+theorem C20R_round (g : GoOp) (hv : 1 ≤ g.op ∧ g.op ≤ 29 ∧ g.op ≠ 12) (rv : GoEval.Val) (e : String)
+    (env : Env) (cs : Calls) (n : Int) (x : GoEval.Val) (hb : Bound env g)
+    (hlen : Env.read? env "len(res)" = some (.int n)) (hx : Env.read? env "res[idx]" = some x)
+    (h0 : 0 ≤ n) (hn : n < 9223372036854775808) (j : Int)
+    (hj : Env.read? env "opIdx" = some (.int j)) (hj0 : -9223372036854775808 ≤ j)
+    (hj1 : j + 1 < 9223372036854775808) (F : Nat) (hF : n.toNat + 45 ≤ F) :
+    ∃ env', execFrom (cliOracle rv e) F cliRound env cs = ⟨env', .fell, cs ++ armNew g env e n x⟩ ∧
+      Env.read? env' "opIdx" = some (.int (if g.op = 24 then 0 else j + 1)) ∧
+      (∀ t, t ∉ roundVars → Env.read? env' t = Env.read? env t) := by
+  have H1 : ∀ t, t ∉ roundVars →
+      Env.read? (Env.write env "o" (Env.read env "&runList[opIdx]")) t = Env.read? env t := by
+    intro t ht
+    refine read?_write_ne _ _ _ _ ?_
+    intro h'; subst h'; exact ht (by decide)
+  have H1' : ∀ t, t ∉ roundVars →
+      Env.read? env t = Env.read? (Env.write env "o" (Env.read env "&runList[opIdx]")) t :=
+    fun t ht => (H1 t ht).symm
+  obtain ⟨env2, harm, hframe, hop⟩ := C20R_arm g hv rv e _ cs n x (hb.congr H1')
+    (by rw [H1 _ (by decide)]; exact hlen) (by rw [H1 _ (by decide)]; exact hx) h0 hn (n.toNat + 14)
+    (Nat.le_refl _)
+  rw [armNew_congr H1] at harm
+  rw [read?_write_ne _ _ _ _ (by decide), hj] at hop
+  by_cases h24 : g.op = 24
+  · rw [if_pos h24] at hop
+    refine ⟨_, round_run_fell _ env cs g.op (-1) _ env2 _ hb.op harm hop (by omega) (by omega) F (by omega),
+      ?_, ?_⟩
+    · rw [read?_write_same, if_pos h24]; rfl
+    · intro t ht
+      rw [read?_write_ne _ _ _ _ (by intro h'; subst h'; exact ht (by decide)), hframe t ht, H1 t ht]
+  · rw [if_neg h24] at hop
+    refine ⟨_, round_run_fell _ env cs g.op j _ env2 _ hb.op harm hop (by omega) (by omega) F (by omega),
+      ?_, ?_⟩
+    · rw [read?_write_same, if_neg h24]
+    · intro t ht
+      rw [read?_write_ne _ _ _ _ (by intro h'; subst h'; exact ht (by decide)), hframe t ht, H1 t ht]
+
+/-! ## 3. what is printed next to what -/
+
+/-- the model's address column of item `i` of a `k`-register type (`at'` in `Cli.printedLines`) -/
+def modelAddr (a : U16) (k i : Nat) : U16 := a + BitVec.ofNat 16 i * BitVec.ofNat 16 k
+
+theorem modelAddr_toNat (a : U16) (k i : Nat) (hk : k < 65536) :
+    (modelAddr a k i).toNat = (a.toNat + i % 65536 * k % 65536) % 65536 := by
+  simp [modelAddr, BitVec.toNat_add, BitVec.toNat_mul, BitVec.toNat_ofNat, Nat.mod_eq_of_lt hk]
+
+theorem col1_model (a : U16) (i : Nat) : col1 a.toNat i = .int (modelAddr a 1 i).toNat := by
+  rw [modelAddr_toNat a 1 i (by omega)]; unfold col1
+  simp only [Val.int.injEq]; omega
+theorem colS_model2 (a : U16) (i : Nat) : colS a.toNat i 2 = .int (modelAddr a 2 i).toNat := by
+  rw [modelAddr_toNat a 2 i (by omega)]; unfold colS
+  simp only [Val.int.injEq]; omega
+theorem colS_model4 (a : U16) (i : Nat) : colS a.toNat i 4 = .int (modelAddr a 4 i).toNat := by
+  rw [modelAddr_toNat a 4 i (by omega)]; unfold colS
+  simp only [Val.int.injEq]; omega
+/-- `bytes`: byte `i` is on the line starting at register `addr + i/2`; at the line starts
+    (`i = 16·r`) that is the model's `addr + 8·r` -/
+theorem colB_model (a : U16) (i : Nat) :
+    colB a.toNat i = .int (a + BitVec.ofNat 16 (i / 2)).toNat ∧
+    ∀ r, i = 16 * r → colB a.toNat i = .int (modelAddr a 8 r).toNat := by
+  constructor
+  · unfold colB
+    simp only [BitVec.toNat_add, BitVec.toNat_ofNat, Val.int.injEq]
+    omega
+  · intro r hr
+    rw [modelAddr_toNat a 8 r (by omega)]; unfold colB
+    simp only [Val.int.injEq]; omega
+
+/-- PRINTED ADDRESSES. The typed address expressions of every row `Printf` (arguments 1 and 2: the
+    hex and the decimal column), extracted from the generated term by accessors, EVALUATED for all
+    `addr : uint16` and all `idx : int ≥ 0`:
+      bools, uint16, int16            `o.addr + uint16(idx)`       = `addr + idx·1`
+      uint32, int32, float32          `o.addr + uint16(idx) * 2`   = `addr + idx·2`
+      uint64, int64, float64          `o.addr + uint16(idx) * 4`   = `addr + idx·4`
+      bytes (printed when idx%16==0)  `o.addr + uint16(idx/2)`
+    all in uint16 arithmetic = the model's column `modelAddr` (`C20R_model_lines`), which is the
+    address of the first register of item `idx` as long as the span stays inside the address space
+    (`C20X_printed_address`). -/
+theorem C20R_printed_addresses (env : Env) (a : U16) (i : Nat)
+    (ha : Env.read? env "o.addr" = some (.int a.toNat)) (hi : Env.read? env "idx" = some (.int i)) :
+    [argN 1 (rowStmt 0), argN 2 (rowStmt 0), argN 1 (iT (rowStmt 1)), argN 2 (iT (rowStmt 1)),
+      argN 1 (iE (rowStmt 1)), argN 2 (iE (rowStmt 1))].map (eval env)
+      = List.replicate 6 (.int (modelAddr a 1 i).toNat) ∧
+    [argN 1 (iT (rowStmt 2)), argN 2 (iT (rowStmt 2)), argN 1 (iE (rowStmt 2)), argN 2 (iE (rowStmt 2)),
+      argN 1 (rowStmt 3), argN 2 (rowStmt 3)].map (eval env)
+      = List.replicate 6 (.int (modelAddr a 2 i).toNat) ∧
+    [argN 1 (iT (rowStmt 4)), argN 2 (iT (rowStmt 4)), argN 1 (iE (rowStmt 4)), argN 2 (iE (rowStmt 4)),
+      argN 1 (rowStmt 5), argN 2 (rowStmt 5)].map (eval env)
+      = List.replicate 6 (.int (modelAddr a 4 i).toNat) ∧
+    [argN 1 bytesHead, argN 2 bytesHead].map (eval env)
+      = List.replicate 2 (.int (a + BitVec.ofNat 16 (i / 2)).toNat) ∧
+    (∀ k, (k = 1 ∨ k = 2 ∨ k = 4 ∨ k = 8) → a.toNat + k * i < 65536 →
+      (modelAddr a k i).toNat = a.toNat + k * i) := by
+  refine ⟨?_, ?_, ?_, ?_, fun k hk h => C20X_printed_address a i k hk h⟩
+  · rw [← col1_model]; cli_eval [ha, hi, List.replicate]
+  · rw [← colS_model2]; cli_eval [ha, hi, List.replicate]
+  · rw [← colS_model4]; cli_eval [ha, hi, List.replicate]
+  · rw [← (colB_model a i).1]
+    have h0 : (0 : Int) ≤ (i : Int) := Int.natCast_nonneg i
+    cli_eval [ha, hi, List.replicate, tdiv_of_nonneg _ h0]
+    simp only [List.cons.injEq, Val.int.injEq, and_self, and_true]
+    omega
+
+theorem sg16 (x : U16) : convVal .i16 (.int x.toNat) = .int x.toInt := by
+  have h : x.toNat < 65536 := x.isLt
+  rw [convVal_int, wrap_i16_def, BitVec.toInt_eq_toNat_cond]
+  simp only [Nat.reducePow, Val.int.injEq]
+  split <;> omega
+theorem sg32 (x : U32) : convVal .i32 (.int x.toNat) = .int x.toInt := by
+  have h : x.toNat < 4294967296 := x.isLt
+  rw [convVal_int, wrap_i32_def, BitVec.toInt_eq_toNat_cond]
+  simp only [Nat.reducePow, Val.int.injEq]
+  split <;> omega
+theorem sg64 (x : U64) : convVal .i64 (.int x.toNat) = .int x.toInt := by
+  have h : x.toNat < 18446744073709551616 := x.isLt
+  rw [convVal_int, wrap_i64_def, BitVec.toInt_eq_toNat_cond]
+  simp only [Nat.reducePow, Val.int.injEq]
+  split <;> omega
+
+/-- SIGNED FORMS. The value expressions of the rows and of the write messages, extracted by
+    accessors and evaluated for every value of the unsigned leaf: the unsigned forms print the value
+    itself, the signed forms its conversion `int16(v)` / `int32(v)` / `int64(v)`, which is the two's
+    complement reading `BitVec.toInt` (what the model prints: `intStr x.toInt`); the hex column
+    (argument 3) is always the unsigned value. -/
+theorem C20R_signed (env : Env) (v16 : U16) (v32 : U32) (v64 : U64) :
+    (Env.read? env "res[idx]" = some (.int v16.toNat) →
+      [argN 3 (iT (rowStmt 1)), argN 4 (iT (rowStmt 1)), argN 3 (iE (rowStmt 1)), argN 4 (iE (rowStmt 1))].map
+        (eval env) = [.int v16.toNat, .int v16.toNat, .int v16.toNat, .int v16.toInt]) ∧
+    (Env.read? env "res[idx]" = some (.int v32.toNat) →
+      [argN 3 (iT (rowStmt 2)), argN 4 (iT (rowStmt 2)), argN 3 (iE (rowStmt 2)), argN 4 (iE (rowStmt 2))].map
+        (eval env) = [.int v32.toNat, .int v32.toNat, .int v32.toNat, .int v32.toInt]) ∧
+    (Env.read? env "res[idx]" = some (.int v64.toNat) →
+      [argN 3 (iT (rowStmt 4)), argN 4 (iT (rowStmt 4)), argN 3 (iE (rowStmt 4)), argN 4 (iE (rowStmt 4))].map
+        (eval env) = [.int v64.toNat, .int v64.toNat, .int v64.toNat, .int v64.toInt]) ∧
+    (Env.read? env "o.u16" = some (.int v16.toNat) →
+      [argN 1 (wOk (arm 8)), argN 1 (wOk (arm 9)), argN 1 (wFail (arm 9))].map (eval env)
+        = [.int v16.toNat, .int v16.toInt, .int v16.toInt]) ∧
+    (Env.read? env "o.u32" = some (.int v32.toNat) →
+      [argN 1 (wOk (arm 10)), argN 1 (wOk (arm 11)), argN 1 (wFail (arm 11))].map (eval env)
+        = [.int v32.toNat, .int v32.toInt, .int v32.toInt]) ∧
+    (Env.read? env "o.u64" = some (.int v64.toNat) →
+      [argN 1 (wOk (arm 13)), argN 1 (wOk (arm 14)), argN 1 (wFail (arm 14))].map (eval env)
+        = [.int v64.toNat, .int v64.toInt, .int v64.toInt]) := by
+  have k16 := sg16 v16
+  have k32 := sg32 v32
+  have k64 := sg64 v64
+  rw [convVal_int, wrap_i16_def] at k16
+  rw [convVal_int, wrap_i32_def] at k32
+  rw [convVal_int, wrap_i64_def] at k64
+  refine ⟨fun h => ?_, fun h => ?_, fun h => ?_, fun h => ?_, fun h => ?_, fun h => ?_⟩
+  · cli_eval [h, k16]
+  · cli_eval [h, k32]
+  · cli_eval [h, k64]
+  · cli_eval [h, k16]
+  · cli_eval [h, k32]
+  · cli_eval [h, k64]
+
+/-- the content of a row, per type, in the model's terms: (hex address, decimal address, value
+    [, value as printed by `%v`]) -/
+theorem C20R_row_content (env : Env) (a : U16) (n : Int) (i : Nat) (x : GoEval.Val) (v16 : U16)
+    (v32 : U32) (v64 : U64) :
+    let A := fun k => GoEval.Val.int (modelAddr a k i).toNat
+    rowCalls 0 env a.toNat 1 n x i = [pf env (rowStmt 0) [A 1, A 1, x]] ∧
+    rowCalls 1 env a.toNat 2 n (.int v16.toNat) i =
+      [pf env (iT (rowStmt 1)) [A 1, A 1, .int v16.toNat, .int v16.toNat]] ∧
+    rowCalls 1 env a.toNat 3 n (.int v16.toNat) i =
+      [pf env (iE (rowStmt 1)) [A 1, A 1, .int v16.toNat, .int v16.toInt]] ∧
+    rowCalls 2 env a.toNat 4 n (.int v32.toNat) i =
+      [pf env (iT (rowStmt 2)) [A 2, A 2, .int v32.toNat, .int v32.toNat]] ∧
+    rowCalls 2 env a.toNat 5 n (.int v32.toNat) i =
+      [pf env (iE (rowStmt 2)) [A 2, A 2, .int v32.toNat, .int v32.toInt]] ∧
+    rowCalls 3 env a.toNat 6 n x i = [pf env (rowStmt 3) [A 2, A 2, x]] ∧
+    rowCalls 4 env a.toNat 7 n (.int v64.toNat) i =
+      [pf env (iT (rowStmt 4)) [A 4, A 4, .int v64.toNat, .int v64.toNat]] ∧
+    rowCalls 4 env a.toNat 8 n (.int v64.toNat) i =
+      [pf env (iE (rowStmt 4)) [A 4, A 4, .int v64.toNat, .int v64.toInt]] ∧
+    rowCalls 5 env a.toNat 9 n x i = [pf env (rowStmt 5) [A 4, A 4, x]] := by
+  intro A
+  simp only [rowCalls, col1_model, colS_model2, colS_model4, sg16, sg32, sg64, A, Int.reduceEq, ↓reduceIte,
+    and_self]
+
+/-- ROWS. A successful read (`err == nil`) appends, after the marker and the ONE client call, the
+    rows of items 0, 1, …, len(res) − 1 in order — one `Printf` per element (`bytes`: see `rowCalls`),
+    nothing else -/
+theorem C20R_rows (k : Nat) (flag : Bool) (g : GoOp) (env : Env) (n : Int) (x : GoEval.Val) :
+    readNew k flag g env "nil" n x =
+      [(readMarker k, []), (readCallee k flag, readArgs k flag g.addr.toNat g.quantity.toNat)] ++
+        (List.range n.toNat).flatMap (fun i => rowCalls k env g.addr.toNat g.op n x (i : Nat)) := by
+  unfold readNew
+  rw [if_pos rfl, rows_eq]
+  simp only [Int.zero_add]
+
+/-- the format literals of the rows: hex width 4 / 8 / 16 for 16 / 32 / 64-bit values, `%f` for
+    floats, 16 bytes per line as `%02x` with a gap after 8 and the text between `<` `>` -/
+theorem C20R_formats :
+    fmtOf (rowStmt 0) = "\"0x%04x\\t%-5v : %v\\n\"" ∧
+    fmtOf (iT (rowStmt 1)) = "\"0x%04x\\t%-5v : 0x%04x\\t%v\\n\"" ∧ fmtOf (iE (rowStmt 1)) = fmtOf (iT (rowStmt 1)) ∧
+    fmtOf (iT (rowStmt 2)) = "\"0x%04x\\t%-5v : 0x%08x\\t%v\\n\"" ∧ fmtOf (iE (rowStmt 2)) = fmtOf (iT (rowStmt 2)) ∧
+    fmtOf (rowStmt 3) = "\"0x%04x\\t%-5v : %f\\n\"" ∧
+    fmtOf (iT (rowStmt 4)) = "\"0x%04x\\t%-5v : 0x%016x\\t%v\\n\"" ∧ fmtOf (iE (rowStmt 4)) = fmtOf (iT (rowStmt 4)) ∧
+    fmtOf (rowStmt 5) = "\"0x%04x\\t%-5v : %f\\n\"" ∧
+    fmtOf bytesHead = "\"0x%04x\\t%-5v : \"" ∧ fmtOf bytesByte = "\"%02x\"" ∧
+    fmtOf bytesTail = "\" <%s>\\n\"" ∧ fmtOf bytesGap = "\" \"" ∧
+    decodeLeaf = "decodeString(res[(idx / 16 * 16) : (idx/16*16)+(idx%16)+1])" ∧
+    ((List.range 17).drop 7).map (fun k => fmtOf (wOk (arm k))) =
+      ["\"wrote %v at coil address 0x%04x\\n\"", "\"wrote %v at register address 0x%04x\\n\"",
+       "\"wrote %v at register address 0x%04x\\n\"", "\"wrote %v at address 0x%04x\\n\"",
+       "\"wrote %v at address 0x%04x\\n\"", "\"wrote %f at address 0x%04x\\n\"",
+       "\"wrote %v at address 0x%04x\\n\"", "\"wrote %v at address 0x%04x\\n\"",
+       "\"wrote %f at address 0x%04x\\n\"", "\"wrote %v bytes at address 0x%04x\\n\""] := by
+  refine ⟨?_, ?_, ?_, ?_, ?_, ?_, ?_, ?_, ?_, ?_, ?_, ?_, ?_, ?_, ?_⟩ <;> first | rfl | decide +kernel
+
+/-- the model's printed lines, with the address column named: the same `modelAddr a k i`, the
+    unsigned value in hex, `x.toNat` / `x.toInt` in decimal -/
+theorem C20R_model_lines (h c : Bool) (a q : U16) :
+    (∀ l, printedLines (.readBools c a q) (.bools l) =
+      (enum l).map (fun p => addrCol (modelAddr a 1 p.1) ++ (if p.2 then "true" else "false"))) ∧
+    (∀ l, printedLines (.readRegs .uint16 h a q) (.u16s l) = (enum l).map (fun p =>
+      addrCol (modelAddr a 1 p.1) ++ "0x" ++ hexPad 4 p.2.toNat ++ "\t" ++ decStr p.2.toNat)) ∧
+    (∀ l, printedLines (.readRegs .int16 h a q) (.u16s l) = (enum l).map (fun p =>
+      addrCol (modelAddr a 1 p.1) ++ "0x" ++ hexPad 4 p.2.toNat ++ "\t" ++ intStr p.2.toInt)) ∧
+    (∀ l, printedLines (.readRegs .uint32 h a q) (.u32s l) = (enum l).map (fun p =>
+      addrCol (modelAddr a 2 p.1) ++ "0x" ++ hexPad 8 p.2.toNat ++ "\t" ++ decStr p.2.toNat)) ∧
+    (∀ l, printedLines (.readRegs .int32 h a q) (.u32s l) = (enum l).map (fun p =>
+      addrCol (modelAddr a 2 p.1) ++ "0x" ++ hexPad 8 p.2.toNat ++ "\t" ++ intStr p.2.toInt)) ∧
+    (∀ l, printedLines (.readRegs .float32 h a q) (.u32s l) = (enum l).map (fun p =>
+      addrCol (modelAddr a 2 p.1) ++ "f32:0x" ++ hexPad 8 p.2.toNat)) ∧
+    (∀ l, printedLines (.readRegs .uint64 h a q) (.u64s l) = (enum l).map (fun p =>
+      addrCol (modelAddr a 4 p.1) ++ "0x" ++ hexPad 16 p.2.toNat ++ "\t" ++ decStr p.2.toNat)) ∧
+    (∀ l, printedLines (.readRegs .int64 h a q) (.u64s l) = (enum l).map (fun p =>
+      addrCol (modelAddr a 4 p.1) ++ "0x" ++ hexPad 16 p.2.toNat ++ "\t" ++ intStr p.2.toInt)) ∧
+    (∀ l, printedLines (.readRegs .float64 h a q) (.u64s l) = (enum l).map (fun p =>
+      addrCol (modelAddr a 4 p.1) ++ "f64:0x" ++ hexPad 16 p.2.toNat)) ∧
+    (∀ bs, printedLines (.readRegs .bytes h a q) (.bytes bs) =
+      (enum (chunks16 (bs.length + 1) bs)).map (fun p =>
+        addrCol (modelAddr a 8 p.1) ++ hexBytes (p.2.take 8) ++
+          (if p.2.length > 8 then " " ++ hexBytes (p.2.drop 8) else "") ++
+          " <" ++ decodeString p.2 ++ ">")) :=
+  ⟨fun _ => rfl, fun _ => rfl, fun _ => rfl, fun _ => rfl, fun _ => rfl, fun _ => rfl, fun _ => rfl,
+   fun _ => rfl, fun _ => rfl, fun _ => rfl⟩
+
+/-! ### sensitivity -/
+
+/-- a previously seeded defect — `* 2` instead of `* 4` in the int64 branch — is told apart on the
+    corresponding sub-term: at `addr = 0`, `idx = 1` the expression of the current source (argument
+    1 of the `Printf` of the int64 branch, by accessor) evaluates to 4 = the model's column, the
+    defective variant to 2 -/
+theorem C20R_sensitive_stride :
+    eval [("o.addr", .int 0), ("idx", .int 1)] (argN 1 (iE (rowStmt 4))) = .int 4 ∧
+    (modelAddr 0 4 1).toNat = 4 ∧
+    eval [("o.addr", .int 0), ("idx", .int 1)]
+      (.bin "+" .u16 (.var "o.addr" .u16) (.bin "*" .u16 (.conv .u16 (.var "idx" .int)) (.lit 2 .u16)))
+      = .int 2 := by
+  refine ⟨by decide +kernel, by decide, by decide +kernel⟩
+
+/-- the count expression (argument 1 of the call, by accessor) at `quantity = 65535`: 0 in the
+    current source (16-bit `+`); a variant computing in `int` gives 65536, one without `+ 1` 65535 -/
+theorem C20R_sensitive_count :
+    eval [("o.quantity", .int 65535)] (argN 1 (armCallT (arm 0))) = .int 0 ∧
+    eval [("o.quantity", .int 65535)] (argN 1 (armCallE (arm 6))) = .int 0 ∧
+    eval [("o.quantity", .int 65535)] (.bin "+" .int (.var "o.quantity" .u16) (.lit 1 .int)) = .int 65536 ∧
+    eval [("o.quantity", .int 65535)] (.var "o.quantity" .u16) = .int 65535 := by
+  refine ⟨by decide +kernel, by decide +kernel, by decide +kernel, by decide +kernel⟩
+
+/-- the unit id: `client.SetUnitId` is called with the id the model's `nextUnit` puts in force for
+    the FOLLOWING requests; no other operation calls it (`C20R_calls`: `unitCall op = []`) or changes
+    the unit id -/
+theorem C20R_unit (u x : Byte) (op : Operation) :
+    unitCall (.setUnitId x) = [("client.SetUnitId", [.int (nextUnit u (.setUnitId x)).toNat])] ∧
+    ((∀ y, op ≠ .setUnitId y) → unitCall op = [] ∧ nextUnit u op = u) := by
+  refine ⟨rfl, fun h => ?_⟩
+  cases op <;> first | exact ⟨rfl, rfl⟩ | exact absurd rfl (h _)
+
+/-! ### a closed run of the whole loop (non-vacuity) -/
+
+/-- `rh:int64:0x10+1` as the only entry of the run list, the device answers two values: the whole
+    generated run loop (head, round, switch, print loop, exit of the loop) is executed by the kernel.
+    ONE client call `ReadUint64s(16, 2, HOLDING_REGISTER)`, two rows at 16 and 20 (stride 4) showing
+    the element and its `int64` conversion (2^64 − 1 ↦ −1), `opIdx` ends at 1, the loop is left.
+    (String literals are unbound here: `unk`.) -/
+theorem C20R_example :
+    let g : GoOp := ⟨8, 0x10, false, true, 1, false, 0, 0, 0, 0, 0, [], 0, 1⟩  -- op, addr, …, quantity
+    let r := exec (cliOracle (.sym "values") "nil") 100 cliRunPart
+      (goEnv g 2 (.int 18446744073709551615) [("len(runList)", .int 1)])
+    r.how = .fell ∧ Env.read r.env "opIdx" = .int 1 ∧
+    r.calls = [("var []uint64", []), ("client.ReadUint64s", [.int 16, .int 2, .int 0]),
+      ("fmt.Printf", [.unk, .int 16, .int 16, .int 18446744073709551615, .int (-1)]),
+      ("fmt.Printf", [.unk, .int 20, .int 20, .int 18446744073709551615, .int (-1)])] := by
+  decide +kernel
+
+/-! ## 4. only the current record matters -/
+
+/-- base variable of a leaf (`o.addr` ↦ `o`, `res[idx]` ↦ `res`, `len(res)` ↦ `res`, `x` ↦ `x`) -/
+def baseOf (k : String) : String := (leafBase k).getD k
+/-- a string literal leaf -/
+def isLit (k : String) : Bool := k.toList.head? == some '"'
+def known (asg : List String) (k : String) : Bool := isLit k || asg.contains k || asg.contains (baseOf k)
+/-- leaves of `e` that are neither literals nor (based on) a variable in `asg` -/
+def unassigned (asg : List String) (e : GExpr) : List String := (leaves e).filter (fun k => !known asg k)
+
+/-- `freshFrom asg s = (reads, asg')`: the leaves `s` may read BEFORE their base variable was
+    assigned (given that the variables `asg` are assigned on entry), and the variables assigned on
+    EVERY path through `s` (`ite`: on both branches; a loop adds nothing, its body is entered with
+    what was assigned before the loop). Program order, path-insensitive reads. -/
+def freshFrom (asg : List String) : GStmt → List String × List String
+  | .assign x e => (unassigned asg e, x :: asg)
+  | .bindCall ts _ as => ((as.map (unassigned asg)).flatten, ts ++ asg)
+  | .seq a b =>
+    let r1 := freshFrom asg a
+    let r2 := freshFrom r1.2 b
+    (r1.1 ++ r2.1, r2.2)
+  | .ite c t e =>
+    let r1 := freshFrom asg t
+    let r2 := freshFrom asg e
+    (unassigned asg c ++ r1.1 ++ r2.1, r1.2.filter (fun k => r2.2.contains k))
+  | .loop b => ((freshFrom asg b).1, asg)
+  | _ => ([], asg)
+
+/-- FRESH RECORD. (static) Starting a round with NOTHING assigned, the only leaves read before
+    their base variable is assigned in that round are: the record itself (`&runList[opIdx]`, from
+    which `o` — and with it every `o.field` leaf — is taken at the head of the round), the loop
+    counter `opIdx`, the constants `nil` / `client`, and two call leaves (`decodeString(res[…])`,
+    `time.Now()…`; the first is over `res` / `idx`, both assigned earlier in its arm). In particular
+    `err`, `res` (`len(res)`, `res[idx]`), `idx`, `#len(res)` are never read before the current round
+    assigned them: `res` is re-declared (`var res []T` marker) and both `res`, `err` are results of
+    the client call on BOTH branches of the `isCoil` / `isHoldingReg` test. The compound leaves read
+    after their base was assigned (`staleReads`, the text-keyed caveat of Model/GoEval.lean) are
+    exactly the `o.field` leaves and `len(res)` / `res[idx]` / `len(o.bytes)`: the theorems above
+    bind them to the fields of the CURRENT record and to the CURRENT call's result.
+    (by evaluation) Two environments that agree on everything except the variables a round assigns
+    (`res`, `err`, `#len(res)`, `idx`, `o`, and the same `opIdx`) — e.g. the states after two
+    different earlier rounds — run the round of the same record identically: same calls, same next
+    `opIdx`, and they again agree on everything else. -/
+theorem C20R_fresh_record :
+    (freshFrom [] cliRound).1.eraseDups =
+      ["&runList[opIdx]", "nil", "decodeString(res[(idx / 16 * 16) : (idx/16*16)+(idx%16)+1])",
+       "time.Now().Format(time.RFC3339)", "client", "opIdx"] ∧
+    (staleReads cliRound).eraseDups =
+      ["o.op", "o.isCoil", "o.addr", "o.quantity", "len(res)", "res[idx]", "o.isHoldingReg", "o.coil",
+       "o.u16", "o.u32", "o.f32", "o.u64", "o.f64", "o.bytes", "len(o.bytes)", "o.duration", "o.unitId"] ∧
+    (assignedTo "o" cliRound).map leafText? = [some "&runList[opIdx]"] ∧
+    ∀ (g : GoOp), (1 ≤ g.op ∧ g.op ≤ 29 ∧ g.op ≠ 12) → ∀ (rv : GoEval.Val) (e : String) (env1 env2 : Env)
+      (cs : Calls) (n : Int) (x : GoEval.Val), Bound env1 g →
+      Env.read? env1 "len(res)" = some (.int n) → Env.read? env1 "res[idx]" = some x →
+      0 ≤ n → n < 9223372036854775808 →
+      (∀ t, t ∉ roundVars → Env.read? env1 t = Env.read? env2 t) →
+      ∀ (j : Int), Env.read? env1 "opIdx" = some (.int j) → Env.read? env2 "opIdx" = some (.int j) →
+      -9223372036854775808 ≤ j → j + 1 < 9223372036854775808 → ∀ (F : Nat), n.toNat + 45 ≤ F →
+      ∃ env1' env2' new,
+        execFrom (cliOracle rv e) F cliRound env1 cs = ⟨env1', .fell, cs ++ new⟩ ∧
+        execFrom (cliOracle rv e) F cliRound env2 cs = ⟨env2', .fell, cs ++ new⟩ ∧
+        Env.read? env1' "opIdx" = Env.read? env2' "opIdx" ∧
+        (∀ t, t ∉ roundVars → Env.read? env1' t = Env.read? env2' t) := by
+  refine ⟨by decide +kernel, by decide +kernel, by decide +kernel, ?_⟩
+  intro g hv rv e env1 env2 cs n x hb hlen hx h0 hn H j hj1 hj2 hj0 hjm F hF
+  obtain ⟨env1', r1, o1, f1⟩ := C20R_round g hv rv e env1 cs n x hb hlen hx h0 hn j hj1 hj0 hjm F hF
+  obtain ⟨env2', r2, o2, f2⟩ := C20R_round g hv rv e env2 cs n x (hb.congr H)
+    (by rw [← H _ (by decide)]; exact hlen) (by rw [← H _ (by decide)]; exact hx) h0 hn j hj2 hj0 hjm F hF
+  refine ⟨env1', env2', armNew g env1 e n x, r1, ?_, by rw [o1, o2], fun t ht => ?_⟩
+  · rw [armNew_congr H]; exact r2
+  · rw [f1 t ht, f2 t ht, H t ht]
 
 end Modbus.Props.C20
+
+section Axioms
+open Modbus.Props.C20
+#print axioms C20R_located
+#print axioms C20R_dispatch
+#print axioms C20R_arm
+#print axioms C20R_calls
+#print axioms C20R_count_wrap
+#print axioms C20R_errors
+#print axioms C20R_exit_sites
+#print axioms C20R_default
+#print axioms C20R_loop_end
+#print axioms C20R_unmodelled
+#print axioms C20R_round
+#print axioms C20R_printed_addresses
+#print axioms C20R_signed
+#print axioms C20R_row_content
+#print axioms C20R_rows
+#print axioms C20R_formats
+#print axioms C20R_model_lines
+#print axioms C20R_sensitive_stride
+#print axioms C20R_sensitive_count
+#print axioms C20R_unit
+#print axioms C20R_fresh_record
+#print axioms bound_goEnv
+#print axioms C20R_loop_step
+#print axioms C20R_call_sites
+#print axioms C20R_example
+end Axioms
